@@ -21,7 +21,7 @@ PROPS_PRE = {
 }
 
 PROPS = dict(PROPS_PRE)
-for _pid, _scn in [('C18','C18'),('C04','C04'),('C09','C09'),('C08','C08'),('C14','C14'),('C05','C05'),('C06','C06'),('C07','C07'),('C10','C10'),('C11','C11'),('C12','C12'),('C15','C15')]:
+for _pid, _scn in [('C17','C17'),('C18','C18'),('C04','C04'),('C09','C09'),('C08','C08'),('C14','C14'),('C05','C05'),('C06','C06'),('C07','C07'),('C10','C10'),('C11','C11'),('C12','C12'),('C15','C15')]:
     PROPS[_pid] = dict(level='exploration', rule=NONTRIVIAL, assumptions=COMMON_ASSUMPTIONS,
                        legs=legs(_scn, 6000, 60, 400000, 1500), reports=[_pid])
 
@@ -32,6 +32,7 @@ def add_leg(pid, scn, q_runs, q_budget, t_runs, t_budget):
 # directed, seeded witness scenarios that stay part of the checks
 add_leg('C18', 'D_deadline_rearm', 1500, 30, 60000, 300)
 add_leg('C15', 'C15b', 4000, 60, 200000, 900)
+add_leg('C17', 'C17w', 3000, 60, 200000, 900)
 
 SIM_NOTE = ("Trusted base: the instrumenter and simulator runtime under /verif (scheduling points at every lock/cond/channel/select/goroutine start; "
             "seeded select and map-iteration order), Go 1.26.8 testing/synctest, the harness' own decoder and reference models. "
@@ -98,6 +99,17 @@ MANIFEST_TEXT.update({
                 note=SIM_NOTE),
 })
 
+MANIFEST_TEXT.update({
+    'C15': dict(design_ref='DESIGN.md §5 C15',
+                technique='deterministic simulation: reference buffered-amount model (written - acknowledged bytes from the wire) compared at idle points; single-message bursts drained to zero give an exact count of threshold crossings; lock table decides "no internal lock held" at callback entry',
+                text='In every data-path run each stream BufferedAmount and the association figure are compared with written minus wire-acknowledged bytes whenever the system is idle, and must be exactly 0 after drain; a dedicated seeded leg writes single messages that are drained to zero before the next one, so the number of OnBufferedAmountLow invocations must equal the number of messages larger than the threshold, and the callback (which calls back into stream and association and writes) must be entered with no instrumented lock held. Evidence, not proof.',
+                note=SIM_NOTE),
+    'C17': dict(design_ref='DESIGN.md §5 C17',
+                technique='deterministic simulation: order of first emissions (TSN assignment order) judged against negotiated framing, fragment order, and round-robin / SCFQ fairness bounds over intervals of reconstructed continuous backlog',
+                text='Seeded exploration with 2-7 concurrently backlogged streams of one sender, round robin or WFQ with seeded weights, interleaving on; DATA/I-DATA and (I-)FORWARD-TSN kinds must match the negotiation in every run of every scenario, fragments must be consecutive (DATA) or FSN-ordered (I-DATA), round robin must serve each continuously backlogged stream exactly once between two services of another, WFQ must keep weight-normalised service of two continuously backlogged streams within one maximum chunk per stream. Wrong-kind chunks answered by ABORT are exercised by C03. Evidence, not proof.',
+                note=SIM_NOTE),
+})
+
 # properties whose check is not built yet (kept current as the work proceeds)
 NOT_BUILT = {pid: 'check not built yet in this session (work in progress, see DESIGN.md §10)' for pid in
-             ['C03','C13','C15','C16','C17','C19','C20']}
+             ['C03','C13','C16','C19','C20']}
